@@ -220,17 +220,18 @@ def make(period_cyc, deep=False):
 
         # ---- covers
         c.cover_depth = 90 if deep else 40
-        c.cover("start_condition", z3.And(sda_changes, scl_o == 1, op == START))
-        c.cover("stretch_happens", z3.And(stretched, op == START))
+        near = P4 <= 4                                  # BMC-reachable within the cover depth only for short quarter periods
+        c.cover("start_condition", z3.And(sda_changes, scl_o == 1, op == START), reach=near)
+        c.cover("stretch_happens", z3.And(stretched, op == START), reach=near)
         c.cover("write_first_bit_sampled", z3.And(wr, nsamp == 0, g_data == 0xA5), reach=(P4 == 1))
         c.cover("write_ack_sampled", z3.And(wr, nsamp == 8, sda_seen == 0), reach=deep)
         c.cover("read_ack_pulse", z3.And(rd, nsamp == 8, g_ack == 1, g_rx == 0x3C), reach=deep)
-        c.cover("stop_condition", z3.And(sda_changes, scl_o == 1, op == STOP), reach=True)
+        c.cover("stop_condition", z3.And(sda_changes, scl_o == 1, op == STOP), reach=near)
         c.cover("stretch_in_write", z3.And(stretched, op == WRITE, nsamp == 3), reach=(deep or P4 == 1))
     return contract
 
 
 def contracts(tier):
-    periods = [4, 8] if tier == "quick" else [4, 5, 8, 12, 16, 100]
+    periods = [4, 8] if tier == "quick" else [4, 5, 8, 16, 100]
     for p in periods:
         yield ("I2CInitiator", f"period{p}_stretch", make(p, deep=(tier != "quick" and p == 4)))
